@@ -1,4 +1,4 @@
-import FsnVerif.Proofs.BridgeTables
+import FsnVerif.Proofs.BridgeString
 import FsnVerif.Proofs.OpStringLemmas
 /-!
 # C16 — Op and Event predicates and renderings are total, exact and unambiguous
@@ -11,7 +11,7 @@ open Fsn
 
 /-- `Op.Has` (as written in the source) is true exactly when the two sets intersect. -/
 theorem has_iff_inter (o h : BitVec 32) : Gen.opHas o h = true ↔ o &&& h ≠ 0#32 := by
-  rw [Bridge.opHas_eq]; simp [opHas]
+  rw [Bridge.opHas_eq']; simp [opHas]
 
 /-- `Event.Has` delegates to `Op.Has` on the event's `Op`. -/
 theorem event_has_agrees : Gen.eventHasBody = ["return e.Op.Has(op)"] := rfl
